@@ -83,10 +83,10 @@ CHECKS = {
         'level_text': 'z3 decides, for all request fields, instants, tolerances and registry contents within the shape bound, that Validate succeeds only for fresh, version-2.0, correctly addressed requests from a registered issuer and that the selected endpoint is exactly the registered endpoint the documented priority picks; replayed natively.',
         'level_note': 'real IdpAuthnRequest.Validate, getACSEndpoint, IdentityProvider.Metadata executed from SSA; request = arbitrary AuthnRequest struct (Issuer nil-able) marshalled by encoding/xml (assumed to round-trip), registry = harness provider answering found/ErrNotExist/other, metadata with <=1 SPSSODescriptor x <=2 ACS endpoints (quick) / <=2 x <=2 (thorough), arbitrary Binding/Location/Index/IsDefault. Outside: request decoding (base64/flate), ServeSSO HTTP plumbing.',
         'harnesses': [
-            {'name': 'Harness_C05_validate', 'pkg': 'saml', 'replay': 'direct', 'must_reach': ['validated', 'rejected', 'received-over-http'],
+            {'name': 'Harness_C05_validate', 'pkg': 'saml', 'replay': 'direct', 'must_reach': ['validated', 'rejected', 'received-over-http', 'index-and-url-name-different-endpoints'],
              'opts': {'time_res': 1000000},
-             'quick': {'K': 1, 'lens_by_tag': [['SPSSODescriptors', [1, 0]], ['AssertionConsumerServices', [1, 0, 2]]]},
-             'thorough': {'K': 1, 'lens_by_tag': [['SPSSODescriptors', [1, 0, 2]], ['AssertionConsumerServices', [1, 0, 2]]]}},
+             'quick': {'K': 1, 'lens_by_tag': [['AssertionConsumerServices', [1, 0, 2]], ['SPSSODescriptors', [1, 0]]]},
+             'thorough': {'K': 1, 'lens_by_tag': [['AssertionConsumerServices', [1, 0, 2]], ['SPSSODescriptors', [1, 0, 2]]]}},
         ],
     },
     'C15': {
@@ -105,6 +105,7 @@ CHECKS = {
             {'name': 'Harness_C16_decode', 'pkg': 'samlsp', 'replay': 'direct', 'must_reach': ['session', 'no-session'], 'opts': {'K': 1}},
             {'name': 'Harness_C16_gate', 'pkg': 'samlsp', 'replay': 'direct', 'must_reach': ['served', 'handler-ran', 'handler-not-run'],
              'validate_labels': ['handler-ran', 'handler-not-run']},
+            {'name': 'Harness_C16_new', 'pkg': 'samlsp', 'replay': 'direct', 'must_reach': ['minted']},
             {'name': 'Harness_C16_attribute', 'pkg': 'samlsp', 'replay': 'direct', 'must_reach': ['served', 'admitted']},
         ],
     },
@@ -190,6 +191,7 @@ CHECKS = {
             {'name': 'Harness_C13_context', 'pkg': 'saml', 'replay': 'direct', 'must_reach': ['context', 'refused']},
             {'name': 'Harness_C13_attached', 'pkg': 'saml', 'replay': 'direct', 'must_reach': ['made', 'refused', 'made-with-signing-configured'],
              'validate_labels': ['made', 'made-with-signing-configured'], 'opts': {'no_sign_err': True}, 'quick': {'params': {'rand.mayfail': 0}}, 'thorough': {'params': {'rand.mayfail': 0}}},
+            {'name': 'Harness_C13_wire', 'pkg': 'saml', 'replay': 'direct', 'must_reach': ['emitted', 'recovered'], 'opts': {'params': {'rand.mayfail': 0}, 'no_sign_err': True}},
             {'name': 'Harness_C13_metadata', 'pkg': 'saml', 'replay': 'direct', 'must_reach': ['metadata']},
             {'name': 'Harness_C12_redirect', 'pkg': 'saml', 'replay': 'direct', 'must_reach': ['signed-redirect'], 'validate_labels': ['signed-redirect'],
              'label_prefix': 'C13/', 'quick': {'params': {'relay.maxlen': 1, 'rand.mayfail': 0}}, 'thorough': {'params': {'relay.maxlen': 2, 'rand.mayfail': 0}}},
@@ -225,6 +227,7 @@ CHECKS = {
         'level_note': 'real getSPEncryptionCert executed from SSA; base64 decode and x509.ParseCertificate are contract stubs (fail or opaque certificate; exact on the two real test certificates); at most one descriptor with use="encryption" (several are ambiguous: outside). Harness_C08_nodowngrade executes the real MakeAssertionEl, xmlenc RSA.Encrypt / CBC.Encrypt and Decrypt with uninterpreted crypto (inverse law under equal key/IV/hash): six metadata key layouts (none, encryption certificate, undecodable certificate, signing-only, use omitted, encryption certificate with one of three EncryptionMethod lists). Outside: confidentiality of AES/RSA themselves; that no user string appears elsewhere in the form is argued structurally.',
         'harnesses': [
             {'name': 'Harness_C01_encrypted', 'pkg': 'saml', 'replay': 'direct', 'must_reach': ['accepted', 'rejected', 'accepted-by-inner-signature', 'accepted-by-response-signature'], 'validate_labels': ['accepted-by-inner-signature', 'accepted-by-response-signature', 'rejected'], 'label_prefix': 'C08', 'opts': {'K': 1}},
+            {'name': 'Harness_C08_fresh', 'pkg': 'xmlenc', 'replay': 'direct', 'must_reach': ['encrypted'], 'opts': {'loop_limit': 20000, 'params': {'rand.mayfail': 0, 'rand.short': 1, 'rand.short.maxcall': 4}}},
             {'name': 'Harness_C08_certselect', 'pkg': 'saml', 'replay': 'direct', 'must_reach': ['returned', 'advertised', 'nothing-advertised', 'real-cert-selected'],
              'opts': {'panic_is_violation': True}, 'validate_labels': ['nothing-advertised', 'real-cert-selected'],
              'quick': {'params': {'kd.max': 2}}, 'thorough': {'params': {'kd.max': 3}}, 'budget_s': {'quick': 600, 'thorough': 3000}},
